@@ -303,11 +303,15 @@ func nearValid(r *Rng, text string, ninstr int, length int) (string, string) {
 	lines := strings.Split(text, "\n")
 	pick := func() int { return r.Intn(len(lines)) }
 	switch r.Intn(9) {
-	case 0: // a mode swapped to a '94-only one
+	case 0: // a mode swapped to a '94-only one, or to another '88 mode (DAT $.., JMP #.., MOV ..,# are illegal in '88)
 		for t := 0; t < 10; t++ {
 			i := pick()
 			for _, ch := range []string{"#", "$", "@", "<"} {
 				if strings.Contains(lines[i], ch) && !strings.HasPrefix(strings.TrimSpace(lines[i]), ";") {
+					if r.Bool() {
+						lines[i] = strings.Replace(lines[i], ch, []string{"#", "$", "@", "<"}[r.Intn(4)], 1)
+						return strings.Join(lines, "\n"), "mode->other-88-mode"
+					}
 					lines[i] = strings.Replace(lines[i], ch, []string{"*", "{", "}", ">"}[r.Intn(4)], 1)
 					return strings.Join(lines, "\n"), "mode->94-only"
 				}
